@@ -99,7 +99,8 @@ from .analyzer import (
 )
 
 
-def _migrate_csv_to_rules(csv_file: str, config_dir: str, backup: bool = True) -> bool:
+def _migrate_csv_to_rules(csv_file: str, config_dir: str, backup: bool = True,
+                          settings_file: str = 'settings.yaml') -> bool:
     """
     Migrate merchant_categories.csv to merchants.rules format.
 
@@ -107,6 +108,7 @@ def _migrate_csv_to_rules(csv_file: str, config_dir: str, backup: bool = True) -
         csv_file: Path to the CSV file
         config_dir: Path to config directory
         backup: Whether to rename old CSV to .bak
+        settings_file: Name of the settings file in use (the one that gets merchants_file)
 
     Returns:
         True if migration was successful
@@ -139,7 +141,7 @@ def _migrate_csv_to_rules(csv_file: str, config_dir: str, backup: bool = True) -
         # process stops in between, the budget still finds either the CSV or the new file
         # (the other order left it with no rules at all). The file is replaced in one step
         # so that a partial write can never leave a truncated merchants_file: line.
-        settings_path = os.path.join(config_dir, 'settings.yaml')
+        settings_path = os.path.join(config_dir, settings_file or 'settings.yaml')
         settings_updated = False
         if os.path.exists(settings_path):
             # newline='' keeps the file's own line endings (CRLF settings stay CRLF)
@@ -170,7 +172,7 @@ def _migrate_csv_to_rules(csv_file: str, config_dir: str, backup: bool = True) -
             print(f"  {C.GREEN}✓{C.RESET} Backed up: merchant_categories.csv → {os.path.basename(backup_file)}")
 
         if settings_updated:
-            print(f"  {C.GREEN}✓{C.RESET} Updated: config/settings.yaml")
+            print(f"  {C.GREEN}✓{C.RESET} Updated: config/{settings_file or 'settings.yaml'}")
             print(f"      Added merchants_file: config/merchants.rules")
 
         return True
@@ -179,7 +181,8 @@ def _migrate_csv_to_rules(csv_file: str, config_dir: str, backup: bool = True) -
         return False
 
 
-def _check_merchant_migration(config: dict, config_dir: str, quiet: bool = False, migrate: bool = False) -> list:
+def _check_merchant_migration(config: dict, config_dir: str, quiet: bool = False, migrate: bool = False,
+                              settings_file: str = 'settings.yaml') -> list:
     """
     Check if merchant rules should be migrated from CSV to .rules format.
 
@@ -241,7 +244,7 @@ def _check_merchant_migration(config: dict, config_dir: str, quiet: bool = False
             # Perform migration using shared helper
             print(f"{C.CYAN}Migrating to new format...{C.RESET}")
             print()
-            if _migrate_csv_to_rules(merchants_file, config_dir, backup=True):
+            if _migrate_csv_to_rules(merchants_file, config_dir, backup=True, settings_file=settings_file):
                 print()
                 print(f"{C.GREEN}Migration complete!{C.RESET} Your rules now support expressions.")
                 print()
